@@ -36,6 +36,10 @@
 (*    term (and threshold term) alone;                                     *)
 (*  - handed-out objects never change;                                     *)
 (*  - using an unfitted object yields NotFitted.                           *)
+(* ObjLife.tla is the same machine for ONE object with OPAQUE terms (used   *)
+(* to validate executions on data this specification never saw: the        *)
+(* repository's own test suite); MC_Lifecycle!RefinesObjLife checks that   *)
+(* every step of this machine, projected on any object, is an ObjLife step.*)
 (* Values of terms are DEFINED by reference executions on fresh objects    *)
 (* (see TR_Lifecycle): the real code conforms iff every observation equals *)
 (* the value of the term this machine assigns to it.                       *)
